@@ -83,7 +83,7 @@ CLAIMED = {
 }
 CLAIMED["C10"] = {
   "category": "exploration",
-  "text": "NOT a proof: no deductive obligation exists for this property (record-field plumbing is Content object-graph code with no integer mechanism within reach of the VC generator, and ak.zip / ak.unzip / ak.with_field broadcast in Python, which cannot be executed here). What is checked is the C++ half only, by run-time contracts on the real compiled classes over a bounded seeded input space (Engine N): fields (x[\"f\"] and x[[\"f\", \"g\"]] through lists and options keep order, values and exactly the requested fields in the requested order), field_slices (projecting a field commutes with integers, ranges, ellipsis and newaxis placed before or after it), setitem_field (RecordArray::setitem_field: the new field reads back as given, every other field, the number of records and their order unchanged; tuples get a new slot), and records read as dicts / tuples with fields in declaration order (every family that contains records). 1200 (quick) / 20000 (thorough) cases per family.",
+  "text": "NOT a proof: no deductive obligation exists for this property (record-field plumbing is Content object-graph code with no integer mechanism within reach of the VC generator, and ak.zip / ak.unzip / ak.with_field broadcast in Python, which cannot be executed here). What is checked is the C++ half only, by run-time contracts on the real compiled classes over a bounded seeded input space (Engine N): fields (x[\"f\"] and x[[\"f\", \"g\"]] through lists and options keep order, values and exactly the requested fields in the requested order), field_slices (projecting a field commutes with integers, ranges, ellipsis and newaxis placed before or after it), setitem_field (RecordArray::setitem_field: the new field reads back as given, every other field, the number of records and their order unchanged; tuples get a new slot), record_scalar (one record taken out of a record array -- a Record scalar -- reads as that record, and its fields project to that record's values), and records read as dicts / tuples with fields in declaration order (every family that contains records). 1200 (quick) / 20000 (thorough) cases per family.",
   "ref": "DESIGN.md section 5 (C10)",
   "note": "Bounded exploration only; ak.zip, ak.unzip, ak.with_field (src/awkward/operations/structure.py, _util.py broadcasting) are NOT covered. Trusted: the rapidjson stand-in (compile-only), the reference semantics in akvlib/nat/refops.py.",
   "technique": "run-time contract checking of the real compiled layout classes on a bounded seeded input space (the bounded stand-in of the contract family; nothing is proved)"}
@@ -106,20 +106,20 @@ G_SENTENCE = (" Call sites (Engine G): the libawkward C++ methods that call thes
 
 
 N_FAMILIES = {
- "C01": "getitem_basic (integers, ranges with any bounds/step, ellipsis, newaxis, fields), getitem_array (one or two adjacent integer arrays of one or two dimensions, boolean arrays, index arrays with missing values), getitem_jagged (jagged integer/boolean indexes with missing entries, boolean masks with None, and -- one-level indexes -- missing rows), getitem_numpy (rectilinear arrays against NumPy's own indexing as oracle), carry_range (carry, x[a:b], x[i]), fields (x[\"f\"] and x[[\"f\", \"g\"]] through lists and options)",
- "C02": "layout_independent (metamorphic: the same operation -- reducers, num, flatten, local_index, pad_none, combinations, sort, argsort, slicing, carry, values_astype, field projection, fill_none -- on a random physical layout and on the compact canonical layout of the same value gives equal values and the same success-or-error outcome), tolist (every physical encoding -- ListArray/ListOffsetArray/RegularArray in 32/U32/64 bit, shifted or shuffled storage with unreachable elements, IndexedArray views, all five option encodings with arbitrary padding bits and negative indexes, strided/offset/reversed/n-dimensional NumpyArray, records, unions -- reads back as the encoded value), carry_range, convert (toListOffsetArray64, toRegularArray, option-encoding conversions, simplify, project, bytemask, deep_copy, contiguous), union_shared (the operations of the other families on union[x, x] whose two branches are literally the same buffers give what they give on x); every other family also draws its inputs from these encodings and compares with a layout-independent reference",
- "C03": "reduce_ragged (all ten reducers, every axis written positively or negatively, mask_identity, keepdims, missing leaves and missing lists, every encoding; integer, boolean, floating-point and -- a fifth of the cases -- complex64/complex128 leaves with NumPy's lexicographic order for min/max/argmin/argmax) reduce_rect (rectilinear arrays incl. size-0 dimensions and n-dimensional NumpyArray) and reduce_datetime (min/max/argmin/argmax/count of datetime64 and timedelta64 leaves in s/ms/us, sum of time differences)",
+ "C01": "getitem_basic (integers, ranges with any bounds/step, ellipsis, newaxis, fields), getitem_array (one or two adjacent integer arrays of one or two dimensions, boolean arrays, index arrays with missing values), getitem_jagged (jagged integer/boolean indexes with missing entries, boolean masks with None, and -- one-level indexes -- missing rows; lists of records, and doubly jagged indexes that pass through a record into its list-typed fields), getitem_numpy (rectilinear arrays against NumPy's own indexing as oracle), carry_range (carry, x[a:b], x[i]), fields (x[\"f\"] and x[[\"f\", \"g\"]] through lists and options, also out of unions of two record types that share the field)",
+ "C02": "layout_independent (metamorphic: the same operation -- reducers, num, flatten, local_index, pad_none, combinations, sort, argsort, slicing, carry, values_astype, field projection, fill_none -- on a random physical layout and on the compact canonical layout of the same value gives equal values and the same success-or-error outcome), tolist (every physical encoding -- ListArray/ListOffsetArray/RegularArray in 32/U32/64 bit, shifted or shuffled storage with unreachable elements, IndexedArray views, all five option encodings with arbitrary padding bits and negative indexes, strided/offset/reversed/n-dimensional NumpyArray, records, unions -- reads back as the encoded value), carry_range, convert (toListOffsetArray64, toRegularArray, option-encoding conversions, simplify, project, bytemask, deep_copy, contiguous), union_shared (the operations of the other families on union[x, x] whose two branches are literally the same buffers give what they give on x), union_windows (the same on a union of the two overlapping windows x[0:n-1] and x[1:n] of one array, weighted towards flatten/num/local_index); every other family also draws its inputs from these encodings and compares with a layout-independent reference",
+ "C03": "reduce_ragged (all ten reducers, every axis written positively or negatively, mask_identity, keepdims, missing leaves and missing lists, every encoding; a mode for argmin/argmax over lists that sit behind a missing list, where the reported position must count the missing ones; integer, boolean, floating-point and -- a fifth of the cases -- complex64/complex128 leaves with NumPy's lexicographic order for min/max/argmin/argmax) reduce_rect (rectilinear arrays incl. size-0 dimensions and n-dimensional NumpyArray) and reduce_datetime (min/max/argmin/argmax/count of datetime64 and timedelta64 leaves in s/ms/us, sum of time differences)",
  "C04": "broadcast (the list-alignment step only: broadcast_tooffsets64 of ListArray / ListOffsetArray / RegularArray onto offsets with the same list lengths keeps the value, a length-1 regular dimension repeats its element to the requested lengths, different lengths raise)",
- "C05": "num, flatten (incl. unions of list types), localindex at every axis; one union node (numbers against records, same list depth) at a random level",
+ "C05": "num, flatten (incl. unions of list types), localindex at every axis; one union node (numbers against records, same list depth) at a random level; record_scalar (local_index and num of one record taken out of a record array equal those of its fields alone)",
  "C06": "sort and argsort along the innermost axis (both directions, stable or not, NaN first, missing leaves last, positions realise the order, ties in original order when stable; for sort also missing lists at the outermost level, which stay where they are; lists of strings and bytestrings sorted as whole units by bytes)",
  "C07": "combinations (n 1..4, with/without replacement, every axis, tuples and order equal to itertools)",
- "C08": "concat (ak.concatenate axis=0 composed from mergeable/mergemany/merge_as_union/simplify as structure.py does: same types, numerically different leaf types with the promoted dtype checked against numpy.result_type for two arrays, different types giving unions, record arrays with the same fields stored in another order, IndexedArray nodes with repeats also next to option-type arrays, blocks of one rectilinear shape as n-dimensional NumpyArrays, datetime64/timedelta64 arrays stored in different units), union_shared, astype (values_astype against numpy.astype leaf by leaf, n-dimensional arrays included, complex64/complex128 as source and target), simplify_union (simplify_uniontype keeps every value, flat unions and a union nested in a union)",
- "C09": "rpad (pad_none with/without clip at every axis), fillna (fill_none at the top option level), convert (conversions among the option encodings, project, bytemask = is_none)",
- "C11": "valid_accept (layouts obeying every documented rule -- strings, bytestrings and fixed-length strings included -- pass validityerror), valid_reject (one documented rule broken at one node: reported, or refused by the constructor) and, in EVERY family, the layout returned for a valid input passes validityerror",
+ "C08": "concat (ak.concatenate axis=0 composed from mergeable/mergemany/merge_as_union/simplify as structure.py does: same types, numerically different leaf types with the promoted dtype checked against numpy.result_type for two arrays, different types giving unions, record arrays with the same fields stored in another order, IndexedArray nodes with repeats also next to option-type arrays, blocks of one rectilinear shape as n-dimensional NumpyArrays, datetime64/timedelta64 arrays stored in different units), union_shared, astype (values_astype against numpy.astype leaf by leaf, n-dimensional arrays included, complex64/complex128 as source and target), simplify_union (simplify_uniontype keeps every value, flat unions and a union nested in a union), union_windows",
+ "C09": "rpad (pad_none with/without clip at every axis), fillna (fill_none at the top option level), convert (conversions among the option encodings, project, bytemask = is_none), record_scalar (fill_none of one record taken out of a record array fills that record's fields only)",
+ "C11": "valid_accept (layouts obeying every documented rule -- strings, bytestrings and fixed-length strings included -- pass validityerror), valid_reject (one documented rule broken at one node -- offsets, starts/stops, indexes, tags, mask/content/field lengths, option directly in option, negative size, malformed string/char/byte/categorical parameters --: reported, or refused by the constructor; never a crash) and, in EVERY family, the layout returned for a valid input passes validityerror",
  "C12": "every family: the call neither crashes nor hangs (each case runs in a forked child with a 20 s alarm), the input layouts are byte-for-byte unchanged afterwards and the result reads the same after its inputs have been dropped; invalid_nocrash (to_list / deep_copy / depth queries on layouts with one broken rule never crash); thorough tier: the same under AddressSanitizer",
- "C14": "builder (random well-nested values through the real ArrayBuilder incl. records with differing fields, tuples, strings, None, mixed numbers: final to_list equals the appended values up to the documented unification, length, validity; zero-field tuples; snapshots taken between values and in the middle of an open value equal the values completed so far and read the same at the end, for initial buffer sizes 1, 2, 8, 1024) and builder_malformed (unbalanced end, field/index outside record/tuple raise)",
+ "C14": "builder (random well-nested values through the real ArrayBuilder incl. records with differing fields, tuples, strings (also with NUL characters), None, mixed numbers incl. integers beyond 2**32: final to_list equals the appended values up to the documented unification, length, validity; zero-field tuples; snapshots taken between values and in the middle of an open value equal the values completed so far and read the same at the end, for initial buffer sizes 1, 2, 8, 1024) and builder_malformed (unbalanced end, field/index outside record/tuple raise)",
  "C19": "forth (random small programs -- stack/arithmetic/comparison/bitwise words, if/else, do/loop/+loop with i, begin/until, begin/while/repeat, user words with exit, variables, typed little/big-endian, repeated, varint and zigzag reads to the stack or to an output, seek/skip/len/pos/end, typed output writes, +<-, rewind, halt, pause -- on the real ForthMachine64 in three schedules (run resumed after every pause, single-stepped, mixed) and with output buffers starting at 1, 2 or 1024 items: error status, stack, variables, outputs and input positions equal those of the reference interpreter akvlib/nat/forthref.py written from the documented semantics)",
- "C18": "virtual (the operations of the other families through a real VirtualArray with a counting generator and no cache / an unbounded cache / a cache that evicts after k hits, optionally with a first generation that fails), virtual_enforce (declared length+form: length/depth/form queries never invoke the generator; a too-short or wrong-form generation is refused and leaves neither an inferred form nor a cached array), field projection of a lazy record array answers depth queries like the eager field, partitioned (IrregularlyPartitionedArray getitem_at, getitem_range with any start/stop and steps up to +-7, repartition incl. empty partitions, against the concatenated list)",
+ "C18": "virtual (the operations of the other families through a real VirtualArray with a counting generator and no cache / an unbounded cache / a cache that evicts after k hits, optionally with a first generation that fails; in a third of the cases the VirtualArray is the content of the outermost list/regular/indexed/option node, and every virtual input is read again after the call), virtual_enforce (declared length+form: length/depth/form queries never invoke the generator; a too-short or wrong-form generation is refused and leaves neither an inferred form nor a cached array), field projection of a lazy record array answers depth queries like the eager field, partitioned (IrregularlyPartitionedArray getitem_at, getitem_range with any start/stop and steps up to +-7, repartition incl. empty partitions, against the concatenated list)",
 }
 
 N_SENTENCE = (" BOUNDED, never counted as proved (Engine N): run-time contracts on the REAL layout classes -- libawkward and the kernels are compiled from the working tree, linked with /verif/native/driver.cpp (rapidjson, an empty submodule here, replaced by a stand-in that is only compiled, never used for JSON) and each postcondition, taken from the property text over the array's nested-list value, is checked on %d (quick) / %d (thorough) seeded random cases per family (lists of at most 4 elements, 3 percent of them 8 to 18 long, depth at most 3): %s. Inputs that hit a recorded known finding are not generated; each recorded input is replayed and reported as KNOWN-FINDING while it still fails.")
